@@ -556,3 +556,93 @@ Proof.
   - intros n0. rewrite Hvar. apply ofun_eq_refl.
   - intros n0 k0. symmetry. apply Hdyn.
 Qed.
+
+(* ------------------------------------------------------------------ the same for SOURCE scripts and the model compiler *)
+
+Lemma group_facts name k rows : Forall (fun row : list sterm => length row = k) rows -> forall acc,
+  fold_left (fun g c => group_insert c g) (map (fact_clause name) rows) [((name, k), acc)] = [((name, k), acc ++ map (fact_clause name) rows)].
+Proof.
+  induction rows as [|row rest IH]; intros F acc; [cbn [map fold_left]; rewrite app_nil_r; reflexivity|].
+  inversion F as [|? ? L Fr]; subst. cbn [map fold_left group_insert].
+  unfold clause_key, key_eqb. cbn [fact_clause c_name c_args fst snd]. rewrite str_eqb_refl, Nat.eqb_refl. cbn [andb].
+  rewrite (IH Fr). rewrite <- app_assoc. reflexivity.
+Qed.
+
+(* the script  name(row_1). .. name(row_n).  (n >= 1, rows of length k) compiles to ONE function, under the key name_k *)
+Lemma compile_facts_program name k rows : rows <> [] -> Forall (fun row : list sterm => length row = k) rows ->
+  exists f cnt', compile_program (map (fact_clause name) rows) = Some [f] /\ fn_name f = name /\ fn_arity f = k /\
+                 compile_clauses (map (fact_clause name) rows) 0 = Some (fn_body f, cnt').
+Proof.
+  intros NE F. destruct rows as [|row rest]; [contradiction|]. inversion F as [|? ? L Fr]; subst.
+  unfold compile_program, group_program. cbn [map fold_left group_insert].
+  change (clause_key (fact_clause name row)) with (name, length row).
+  match goal with |- context [compile_groups ?g 0] =>
+    replace g with [((name, length row), [fact_clause name row] ++ map (fact_clause name) rest)]
+      by (symmetry; apply (group_facts name (length row) rest Fr [fact_clause name row])) end.
+  change ([fact_clause name row] ++ map (fact_clause name) rest) with (map (fact_clause name) (row :: rest)).
+  destruct (compile_facts name (row :: rest) 0) as [code E]. cbn [compile_groups]. rewrite E. cbn [fst snd].
+  eexists. exists 0. split; [reflexivity|]. repeat split. exact E.
+Qed.
+
+Inductive sop :=
+| SReg (name : str) (k : nat) (rows : list (list sterm)) (vals : list bool)   (* register_function(name, python predicate over the rows) *)
+| SRegAny (name : str) (k : nat) (f : nfun)                                    (* any other Python predicate *)
+| SRegVar (name : str) (f : nfun)
+| SLoad (p : program) (overwrite : bool)                                       (* compile p, load_script_from_string *)
+| SAssert (name : str) (row : frow).
+
+Definition sop_op (o : sop) : option op :=
+  match o with
+  | SReg name k rows vals => Some (OReg name k (native_rows (map row_of rows) vals))
+  | SRegAny name k f => Some (OReg name k f)
+  | SRegVar name f => Some (ORegVar name f)
+  | SLoad p ow => match compile_program p with Some ir => Some (OLoad ir ow) | None => None end
+  | SAssert name row => Some (OAssert name row)
+  end.
+
+Fixpoint sops_ops (l : list sop) : option (list op) :=
+  match l with
+  | [] => Some []
+  | o :: r => match sop_op o, sops_ops r with Some x, Some xs => Some (x :: xs) | _, _ => None end
+  end.
+
+Inductive sop_twin : sop -> sop -> Prop :=
+| stwin_same o : sop_twin o o
+| stwin_vals name k rows vals1 vals2 : sop_twin (SReg name k rows vals1) (SReg name k rows vals2)
+| stwin_facts name k rows vals : rows <> [] -> Forall (fun row => ground_row row = true /\ length row = k) rows ->
+    sop_twin (SReg name k rows vals) (SLoad (map (fact_clause name) rows) true)
+| stwin_facts_rev name k rows vals : rows <> [] -> Forall (fun row => ground_row row = true /\ length row = k) rows ->
+    sop_twin (SLoad (map (fact_clause name) rows) true) (SReg name k rows vals).
+
+Lemma Forall_len k (rows : list (list sterm)) : Forall (fun row => ground_row row = true /\ length row = k) rows ->
+  Forall (fun row : list sterm => length row = k) rows.
+Proof. intros F. eapply Forall_impl; [|exact F]. intros a [_ H]. exact H. Qed.
+
+Lemma sop_twin_op o1 o2 x1 x2 : sop_twin o1 o2 -> sop_op o1 = Some x1 -> sop_op o2 = Some x2 -> op_twin x1 x2.
+Proof.
+  intros T E1 E2. destruct T as [o|name k rows vals1 vals2|name k rows vals NE F|name k rows vals NE F].
+  - rewrite E1 in E2. injection E2 as <-. apply twin_same.
+  - cbn [sop_op] in E1, E2. injection E1 as <-. injection E2 as <-. apply twin_yield. intros args s. rewrite !drop_native_rows. reflexivity.
+  - cbn [sop_op] in E1, E2. injection E1 as <-.
+    destruct (compile_facts_program name k rows NE (Forall_len k rows F)) as [f [cnt' [EC [Hn [Hk HB]]]]].
+    rewrite EC in E2. injection E2 as <-. eapply twin_facts; eassumption.
+  - cbn [sop_op] in E1, E2. injection E2 as <-.
+    destruct (compile_facts_program name k rows NE (Forall_len k rows F)) as [f [cnt' [EC [Hn [Hk HB]]]]].
+    rewrite EC in E1. injection E1 as <-. eapply twin_facts_rev; eassumption.
+Qed.
+
+Lemma sops_twin_ops l1 l2 : Forall2 sop_twin l1 l2 -> forall o1 o2, sops_ops l1 = Some o1 -> sops_ops l2 = Some o2 -> Forall2 op_twin o1 o2.
+Proof.
+  intros F. induction F as [|a b r1 r2 T _ IH]; intros o1 o2 E1 E2.
+  - cbn [sops_ops] in E1, E2. injection E1 as <-. injection E2 as <-. constructor.
+  - cbn [sops_ops] in E1, E2.
+    destruct (sop_op a) as [x1|] eqn:A1; [|discriminate]. destruct (sops_ops r1) as [xs1|]; [|discriminate].
+    destruct (sop_op b) as [x2|] eqn:A2; [|discriminate]. destruct (sops_ops r2) as [xs2|]; [|discriminate].
+    injection E1 as <-. injection E2 as <-. constructor; [eapply sop_twin_op; eassumption|apply IH; reflexivity].
+Qed.
+
+(* what the check does: two sequences of source-level operations, each script compiled on its own by the model compiler *)
+Theorem source_mixed_sources_interchangeable l1 l2 o1 o2 : Forall2 sop_twin l1 l2 ->
+  sops_ops l1 = Some o1 -> sops_ops l2 = Some o2 ->
+  forall n name args s, cquery n (build cempty o1) name args s = cquery n (build cempty o2) name args s.
+Proof. intros F E1 E2. apply mixed_sources_interchangeable. eapply sops_twin_ops; eassumption. Qed.
